@@ -51,17 +51,35 @@ def run_worker(cases, hashseed):
 
 
 def scan_tree_twice(ctx, fs):
-    """two scans of the same tree (second one in a fresh process with another hash seed and no
-    cache): reports may differ only in uuid, timestamp and the order of files"""
+    """scans of the same tree in fresh processes under several hash seeds (no cache): the reports
+    may differ only in uuid, timestamp and the order of files, and every file's entry must be the
+    analysis of that file alone (= the model's result for its language and content). The tree has
+    an order-sensitive exclusion list (a negated gitignore pattern) and byte-identical files of
+    different languages, so that neither set-iteration order nor sharing between files goes unnoticed."""
     root = tempfile.mkdtemp(prefix="c06_")
     try:
+        placed = {}
         for i, (lang, code) in enumerate(fs[:25]):
-            d = os.path.join(root, "d%d" % (i % 3))
-            os.makedirs(d, exist_ok=True)
-            with open(os.path.join(d, "f%02d.%s" % (i, sr.EXT[lang])), "w", encoding="utf-8", newline="") as f:
+            rel = os.path.join("d%d" % (i % 3), "f%02d.%s" % (i, sr.EXT[lang]))
+            placed[rel] = (lang, code)
+        twin = "int sum(int n) {\n  int s = 0;\n  list_for_each(p) {\n    s += 1;\n  }\n  return s;\n}\n"
+        placed[os.path.join("twins", "sum.c")] = ("C", twin)
+        placed[os.path.join("twins", "sum.cpp")] = ("C++", twin)
+        js = "function f(a) {\n  return a;\n}\n"
+        placed[os.path.join("twins", "same.js")] = ("JavaScript", js)
+        placed[os.path.join("twins", "same.ts")] = ("TypeScript", js)
+        placed[os.path.join("gen", "keep.py")] = ("Python", "def keep():\n    return 1\n")
+        placed[os.path.join("gen", "drop.py")] = ("Python", "def drop():\n    return 2\n")
+        for rel, (lang, code) in placed.items():
+            os.makedirs(os.path.join(root, os.path.dirname(rel)), exist_ok=True)
+            with open(os.path.join(root, rel), "w", encoding="utf-8", newline="") as f:
                 f.write(code)
+        with open(os.path.join(root, ".gitignore"), "w") as f:
+            f.write("gen/*\n!gen/keep.py\n*.tmp\n")
+        expected_files = sorted(r for r in placed if r != os.path.join("gen", "drop.py"))
         docs = []
-        for seed in (1, 77):
+        seeds = ctx.pick([1, 5, 12, 77], list(range(1, 25)))
+        for seed in seeds:
             shutil.rmtree(os.path.join(root, ".codelimit_cache"), ignore_errors=True)
             env = dict(os.environ, PYTHONHASHSEED=str(seed), PYTHONPATH=common.REPO, COLUMNS="200")
             p = subprocess.run([sys.executable, "-m", "codelimit", "scan", root], capture_output=True, text=True, env=env, timeout=300, cwd=root)
@@ -70,14 +88,29 @@ def scan_tree_twice(ctx, fs):
             d = json.load(open(os.path.join(root, ".codelimit_cache", "codelimit.json")))
             d.pop("uuid", None); d.pop("timestamp", None)
             docs.append(d)
-        a, b = docs
 
         def canon(d):
             cb = d["codebase"]
             return {"version": d.get("version"), "root": d.get("root"), "totals": cb["totals"],
                     "files": {k: v for k, v in sorted(cb["files"].items())},
                     "tree": {k: {"entries": sorted(v["entries"]), "profile": v["profile"]} for k, v in sorted(cb["tree"].items())}}
-        return None if canon(a) == canon(b) else "two scans of the same tree differ beyond uuid/timestamp/file order"
+        first = canon(docs[0])
+        for seed, d in zip(seeds[1:], docs[1:]):
+            if canon(d) != first:
+                a_, b_ = set(first["files"]), set(canon(d)["files"])
+                return "scans of the same tree under PYTHONHASHSEED=%s and %s differ beyond uuid/timestamp/file order (files only in one: %s)" % (seeds[0], seed, sorted(a_ ^ b_)[:4])
+        if sorted(first["files"]) != expected_files:
+            return "scanned files %s, expected %s" % (sorted(first["files"])[:6], expected_files[:6])
+        # every entry is the analysis of that file alone
+        rels = sorted(first["files"])
+        model = sr.model_scan_many([sr.scan_request(*placed[r]) for r in rels])
+        for r, m in zip(rels, model):
+            dm = sr.decode_scan(m)
+            e = first["files"][r]
+            got = [(x["unit_name"], x["start"]["line"], x["start"]["column"], x["end"]["line"], x["end"]["column"], x["value"]) for x in e["measurements"]]
+            if dm is None or got != dm[0] or e["language"] != placed[r][0] or e["loc"] != dm[1]:
+                return "entry of %s in the scan report (%s, %s) is not the analysis of that file alone (%s, %s)" % (r, e["language"], got[:3], placed[r][0], dm and dm[0][:3])
+        return None
     finally:
         shutil.rmtree(root, ignore_errors=True)
 
